@@ -220,7 +220,7 @@ fn body(n: usize, pollers: &[Poller]) {
 
 pub fn configs(thorough: bool) -> Vec<Config> {
     use Poller::*;
-    let mut v = vec![];
+    let mut v = vec![Config::new(PROBE.into(), Bound::Unbounded, crate::h_c07::probe)];
     let mut add = |n: usize, ps: Vec<Poller>| {
         let name = format!("n{n}:{}", ps.iter().map(|p| p.tag()).collect::<Vec<_>>().join("|"));
         // the writer + one poller thread, few operations: small enough to explore without preemption bound
@@ -257,3 +257,11 @@ pub fn configs(thorough: bool) -> Vec<Config> {
     }
     v
 }
+
+pub const SUB: crate::driver::Sub = crate::driver::Sub {
+    name: "c06_watch_loom",
+    property: "C06",
+    configs,
+    rule: "configs = n in 1..3 writes by one writer x pollers {ReloadWatcher made before the writes / by the reader / from the untyped handle, reloaded_global, both alternately; 1-3 polls; 1-3 polling threads}; `if reported { read value }` after every poll; final polls after the joins; for each config loom enumerates every interleaving of the entry's RwLock and atomic operations within the preemption bound. distinct = distinct (poll answers per thread, final flag) observations",
+    bound: "1 writer thread, 1-3 poller threads, <=3 writes, <=3 polls; same configs in both tiers; one poller with <=2 polls and <=2 writes: unbounded",
+};
